@@ -50,6 +50,17 @@ def workdir():
             with open(p + ".tmp%d" % os.getpid(), "wb") as f:
                 f.write(wav_bytes(n, rate, 1000 + i, bits, ch))
             os.replace(p + ".tmp%d" % os.getpid(), p)
+    # malformed sample files: the outcome (an input error or a decoded sample) must not depend on what
+    # lies behind the file buffer — truncated data chunk, data size beyond the file, chunk size near 2^32
+    good = wav_bytes(600, 17500, 77, 8, 1)
+    bad = {"wt_trunc.wav": good[:len(good) - 300], "wt_big.wav": good[:40] + (100000).to_bytes(4, "little") + good[44:],
+           "wt_huge.wav": good[:40] + (0xffffffe0).to_bytes(4, "little") + good[44:], "wt_short.wav": good[:30]}
+    for name, data in bad.items():
+        p = os.path.join(WORK, name)
+        if not os.path.exists(p):
+            with open(p + ".tmp%d" % os.getpid(), "wb") as f:
+                f.write(data)
+            os.replace(p + ".tmp%d" % os.getpid(), p)
     for src in glob.glob(os.path.join(REPO, "sample", "pcm", "*.wav")):
         dst = os.path.join(WORK, "pcm", os.path.basename(src))
         if not os.path.exists(dst):
@@ -105,6 +116,11 @@ S_LONGSILENCE = "A o4 l1 t40 c r r r r r r r r r r r r r r r r\n"
 S_ERR = "A o4 [c d\n"                                          # unterminated loop: the error must be the same everywhere
 S_ERR2 = "A @99 c\n"                                           # undefined instrument
 S_TEMPO = "A t200 o4l16 L [cdef]8 T100 [gab>c<]4\nB t60 l4 c\n"
+# per-song options and definitions that must not leak into the next song: `#option noextpitch` followed by
+# a song whose pitch envelope needs the extended form; a song with a key signature / transpose / echo setting
+S_NOEXT = "#option noextpitch\n" + FM % (1, 3, 0) + "@M1 0>1:20 1\nA @1 v12 M1 o4 l4 cdef\n"
+S_STEEP = FM % (1, 3, 0) + "@M1 12>0:4 0\nA @1 v12 M1 o4 l2 cg\n"
+S_KEYSIG = "A _{+fc} k2 \\=2,3 o4 l8 c d e f \\ \\ \nB __3 o3 l4 f g\n"
 
 
 def s_straddle(frames, pad, title=0):
@@ -290,12 +306,19 @@ def cases(rng, tier):
     yield Case("pcmtab", ("statics",), "corpus")
     samples = [open(p, encoding="utf-8", errors="replace").read() for p in sample_files()]
     named = [S_TINY, S_LOOP0, S_BREAK, S_SUB, S_PSG, S_FM, S_PCM_MD, S_PCM_MIX, S_PCM_MIX3, S_DRUM, S_MACRO, S_FM3, S_TAGS, S_NODATE,
-             S_LONGSILENCE, S_ERR, S_ERR2, S_TEMPO]
+             S_LONGSILENCE, S_ERR, S_ERR2, S_TEMPO, S_NOEXT, S_STEEP]
     # ---- corpus: every named song alone, then histories that mix PCM-table users, errors, write-back users
     for s in named:
         yield Case(hist([mtok(s)]), sorted({"corpus", "single"} | song_tags(s)), "corpus")
     yield Case(hist([mtok(S_PCM_MIX), mtok(S_TINY), mtok(S_PCM_MIX3), mtok(S_PCM_MD)]), ("corpus", "history", "pcm", "pcm-mix"), "corpus")
     yield Case(hist([mtok(S_ERR), mtok(S_BREAK), mtok(S_ERR2), mtok(S_SUB)]), ("corpus", "history", "error-then-valid", "break"), "corpus")
+    yield Case(hist([mtok(S_NOEXT), mtok(S_STEEP), mtok(S_NOEXT), mtok(S_STEEP)]), ("corpus", "history", "option-leak", "pitch"), "corpus")
+    yield Case(hist([mtok(S_STEEP), mtok(S_NOEXT), mtok(S_STEEP)], fills=(0,), seeds=(1,)), ("corpus", "history", "option-leak", "pitch"), "corpus")
+    yield Case(hist([mtok(S_KEYSIG), mtok(S_TINY), mtok(S_KEYSIG)], fills=(0,), seeds=(1,)), ("corpus", "history", "option-leak"), "corpus")
+    for wn in ("wt_trunc.wav", "wt_big.wav", "wt_huge.wav", "wt_short.wav"):
+        bad_song = "#platform mdsdrv\n@30 pcm \"%s\"\n@31 pcm \"w2.wav\"\nF @30 o4l8 c r @31 c\n" % wn
+        yield Case(hist([mtok(S_PCM_MIX), mtok(bad_song), mtok(S_TINY), mtok(bad_song)], fills=(0, 85, 255), seeds=(1, 2)),
+                   ("corpus", "history", "pcm", "malformed-sample"), "corpus")
     yield Case(hist([mtok(S_BREAK), mtok(S_SUB), mtok(S_MACRO)], mode="V"), ("corpus", "history", "validated-first", "break"), "corpus")
     yield Case(hist([mtok(S_BREAK), mtok(S_SUB), mtok(S_TEMPO)], mode="O"), ("corpus", "history", "optimized", "break"), "corpus")
     yield Case(hist([ctok(["T0:2.36.2.0,2.36.2.0,7.0.0.0,1.0.0.4,2.36.2.0"]), ctok(["V:5", "T0:4.0.0.0,2.36.6.0,5.0.0.0,2.38.6.0,6.3.0.0"])]),
